@@ -8,6 +8,9 @@ from lib import vlib
 BASE = dict(NFlows="2", NNodes="2", EmptyFlows="{}", MaxSteps="4", MaxResumes="2", MaxCalls="4",
             FaultKinds="{}", MaxFaults="0")
 FAULTS = '{"flow_gone", "parent_gone", "node_gone", "pnode_gone", "wait_gone", "group_added"}'
+# the exhaustive configurations were sized without group_added (a fault that is enabled in every waiting state and changes nothing
+# of the state machine): they keep the core set, group_added has a complete small set of its own
+FAULTS_CORE = '{"flow_gone", "parent_gone", "node_gone", "pnode_gone", "wait_gone"}'
 
 
 def gen_plan(ctx, prop):
@@ -47,6 +50,9 @@ def gen_plan(ctx, prop):
         # ... or in which the enter_flow node that run stands on is edited away
         plans.append(("pnode-gone-2x1", dict(BASE, NNodes="1", MaxSteps="3", MaxCalls="3", TrigKinds='{"manual"}', ResumeKinds='{"msg", "expiration", "timeout"}',
                                              FaultKinds='{"pnode_gone"}', MaxFaults="1"), None))
+        # ... or in which a query-based group that matches the contact appears among the assets (stale membership before a rejected resume)
+        plans.append(("group-added-2x1", dict(BASE, NNodes="1", MaxSteps="3", MaxCalls="3", TrigKinds='{"manual"}', ResumeKinds='{"msg", "expiration", "timeout", "dial"}',
+                                              FaultKinds='{"group_added"}', MaxFaults="1"), None))
         if not q:
             plans.append(("faults2", dict(BASE, FaultKinds=FAULTS, MaxFaults="2", MaxCalls="5"), n))
     # voice flows: dial waits next to msg waits, dial resumes (accepted by dial waits only), the resume limit counts both
@@ -61,7 +67,7 @@ def gen_plan(ctx, prop):
     if not q:
         # complete behaviour set of the small configuration
         plans.append(("exhaustive-1x2", dict(BASE, NFlows="1", MaxSteps="3", MaxCalls="3",
-                                            FaultKinds=FAULTS if prop == "C10" else "{}", MaxFaults="1" if prop == "C10" else "0"), None))
+                                            FaultKinds=FAULTS_CORE if prop == "C10" else "{}", MaxFaults="1" if prop == "C10" else "0"), None))
     return plans
 
 
@@ -79,8 +85,9 @@ def mc_constants(ctx, prop):
         return [dict(MaxSteps="5", MaxResumes="3", MaxCalls="4"),                       # 1.9 M, with Terminates: ~2 min
                 dict(NFlows="2", NNodes="1", MaxSteps="4", MaxCalls="4"),
                 dict(MaxSteps="1", MaxResumes="0", MaxCalls="3"), dict(MaxSteps="2", MaxResumes="1", MaxCalls="3")]
-    return [dict(NFlows="2", MaxSteps="2", MaxCalls="3", **manual),                     # C10 incl. parent_gone: 10.4 M, 90 s
-            dict(MaxCalls="4", MaxFaults="2")]                                          # two faults in a row: 0.9 M
+    return [dict(NFlows="2", MaxSteps="2", MaxCalls="3", FaultKinds=FAULTS_CORE, **manual),      # C10 incl. parent_gone: 10.4 M, 90 s
+            dict(MaxCalls="4", MaxFaults="2", FaultKinds=FAULTS_CORE),                          # two faults in a row: 0.9 M
+            dict(MaxCalls="3", FaultKinds='{"group_added", "wait_gone"}')]                       # the no-op fault next to a real one
 
 
 def key_for(name, line):
